@@ -402,6 +402,52 @@ def collator(ctx: Ctx):
     m = ctx.repo.lookup(sv, "_is_nan")
     body = SUMMARIZER.summarize(m.node)
     ctx.check_expr("nan-bucket", f"{COL}::SortByValueCollator._is_nan", body, "__try__(np.isnan(value), (TypeError, False))", "labels (strings) are never NaN")
+    # the same as a decision table over the kinds of sort key: ONLY NaN goes to the "after the sorted ones" bucket;
+    # +inf / -inf (a share whose total is 0) are ordinary, comparable keys and sort as largest / smallest
+    import math
+
+    from ..dectab import DTop, ModelInterp, Raises
+
+    cases = [("nan", float("nan"), True), ("+inf", float("inf"), False), ("-inf", float("-inf"), False), ("finite", 1.5, False), ("zero", 0.0, False), ("int", 3, False), ("label", "abc", False), ("empty label", "", False)]
+    bad, n, undec = [], 0, None
+    for label, val, want in cases:
+        def atoms(x, val=val):
+            if isinstance(x, ast.Name) and x.id == "value":
+                return val
+            raise KeyError
+
+        class _I(ModelInterp):
+            def _call(self, c, it):
+                f = u(c.func)
+                if f in ("np.isnan", "math.isnan", "np.isfinite", "math.isfinite", "np.isinf", "math.isinf") and len(c.args) == 1:
+                    v = self.ev(c.args[0])
+                    if isinstance(v, str) or v is None:
+                        raise Raises("TypeError", f)
+                    fn = {"isnan": math.isnan, "isfinite": math.isfinite, "isinf": math.isinf}[f.split(".")[-1]]
+                    return fn(float(v))
+                if f == "isinstance" and len(c.args) == 2:
+                    v = self.ev(c.args[0])
+                    names = [n_.strip() for n_ in u(c.args[1]).strip("()").split(",")]
+                    table = {"float": float, "np.floating": float, "int": int, "str": str, "np.integer": int, "numbers.Number": (int, float), "numbers.Real": (int, float)}
+                    return any(isinstance(v, table[n_]) and not (n_ in ("int", "np.integer") and isinstance(v, bool)) for n_ in names if n_ in table)
+                return super()._call(c, it)
+
+        try:
+            got = bool(_I(atoms).ev(body))
+        except Raises as r:
+            bad.append(f"{label}: raises {r.etype}")
+            continue
+        except DTop as t:
+            undec = str(t)
+            break
+        n += 1
+        if got != want:
+            bad.append(f"{label}: {got} (specified {want})")
+    if undec:
+        ctx.undecided("nan-bucket.table", f"{COL}::SortByValueCollator._is_nan", "DECTAB: " + undec, "True for NaN only")
+    else:
+        ctx.ob("nan-bucket.table", f"{COL}::SortByValueCollator._is_nan", bad or f"{n} kinds of sort key", "True for NaN only (infinities and labels are ordinary keys)", not bad,
+               "a key that is not NaN but lands in the NaN bucket leaves the sort: the displayed vectors are no longer monotone in the measure")
 
 
 # --------------------------------------------------------------------------- the fallback swallows ValueError
